@@ -66,6 +66,7 @@ type Case struct {
 	BackoffMult int   `json:"backoffMult"` // max = min * mult
 	Batch       bool  `json:"batch"`
 	PruneMs     int   `json:"pruneMs"` // 0 = pruning off
+	RefreshMs   int   `json:"refreshMs,omitempty"` // 0 = refreshing off
 	Inits       int   `json:"inits"`   // initializers registered before the hive starts
 	Script      []Step `json:"script"`
 	// Faults[id][op] = outcomes of successive calls (true = fail); afterwards success.
@@ -529,7 +530,11 @@ func runInBubble(c Case, check func(w *world) (string, error)) (res result) {
 	opts := []reconciler.Option{
 		reconciler.WithRetry(c.backoffMin(), c.backoffMax()),
 		reconciler.WithRoundLimits(max(1, c.RoundSize), rate.NewLimiter(rate.Every(c.roundInterval()), 1)),
-		reconciler.WithRefreshing(0, nil),
+	}
+	if c.RefreshMs > 0 {
+		opts = append(opts, reconciler.WithRefreshing(time.Duration(c.RefreshMs)*time.Millisecond, nil))
+	} else {
+		opts = append(opts, reconciler.WithRefreshing(0, nil))
 	}
 	if c.PruneMs > 0 {
 		opts = append(opts, reconciler.WithPruning(time.Duration(c.PruneMs)*time.Millisecond))
